@@ -19,6 +19,10 @@ MODELS = {
                   names={'inp': 'Sheet1!$A$1'}, inputs=['A1']),
     'range': dict(cells={'A1': 1, 'A2': 2, 'A3': 3, 'B1': '=SUM(A1:A3)', 'B2': '=MAX(A1:A3)-MIN(A1:A3)', 'C1': '=B1&"/"&B2'},
                   names={'inp': 'Sheet1!$A$2'}, inputs=['A1', 'A2', 'A3']),
+    'typed': dict(cells={'A1': 1, 'B1': '=A1=1', 'C1': '=ISNUMBER(A1)', 'D1': '=A1&"|"', 'E1': '=IF(B1,"one",C1)'},
+                  names={'inp': 'Sheet1!$A$1'}, inputs=['A1'], values=[True, 1.0, 0, False, 1, '1']),
+    'longrange': dict(cells={'A1': 2, 'A120': '=A1*10', 'A150': '=B1+1', 'B1': 4, 'C1': '=SUM(A1:A150)', 'D1': '=COUNT(A1:A150)'},
+                      names={'inp': 'Sheet1!$B$1'}, inputs=['A1', 'B1']),
     'sheets': dict(cells={'Sheet1!A1': 4, 'Data!A1': 10, 'Data!B1': '=A1*2', 'Sheet1!B1': '=Data!B1+A1', 'Sheet1!C1': '=B1+Data!A1'},
                    names={'inp': 'Data!$A$1'}, inputs=['Sheet1!A1', 'Data!A1']),
 }
@@ -33,7 +37,7 @@ def ops_for(m):
     spec = MODELS[m]
     ops = []
     for inp in spec['inputs']:
-        for v in VALUES[:1 if len(spec['inputs']) > 2 else 2]:
+        for v in spec.get('values', VALUES[:1 if len(spec['inputs']) > 2 else 2]):
             ops.append(('set', full(inp), v))
     ops.append(('setname', 'inp', 9))
     for c in spec['cells']:
@@ -64,7 +68,7 @@ def fresh_values(m, inputs):
     """value of every cell in a freshly compiled model holding the given inputs"""
     import xlcalculator
     from drivers.common import build_model, observe
-    key = (m, tuple(sorted(inputs.items())))
+    key = (m, tuple(sorted((k, repr(v)) for k, v in inputs.items())))
     if key not in _fresh_cache:
         spec = MODELS[m]
         cells = {full(k): v for k, v in spec['cells'].items()}
@@ -97,6 +101,7 @@ def oracle_history(c):
     inputs = {full(k): spec['cells'][k] for k in spec['inputs']}
     name_target = spec['names']['inp'].replace('$', '')
     snap_formulas = snapshot(model)[1]
+    cells_before = sorted(model.cells)          # (placeholder cells of ranges are created when the model is built)
     last = {}
     for step, oi in enumerate(c['history']):
         op = ops[oi]
@@ -104,7 +109,7 @@ def oracle_history(c):
             if op[0] == 'set':
                 evs[0].set_cell_value(op[1], op[2])
                 inputs[op[1]] = op[2]
-                last[op[1]] = ('num', op[2])
+                last[op[1]] = observe(op[2])
             elif op[0] == 'setname':
                 evs[1].set_cell_value(op[1], op[2])
                 inputs[name_target] = op[2]
@@ -132,9 +137,9 @@ def oracle_history(c):
         return False, 'formula texts unchanged', snap[1]
     exp_consts = {a for a in model.cells if model.cells[a].formula is None}
     for a in exp_consts:
-        if a in inputs and model.cells[a].value != inputs[a]:
+        if a in inputs and (model.cells[a].value != inputs[a] or type(model.cells[a].value) is not type(inputs[a])):
             return False, f'constant {a} holds the last value set ({inputs[a]})', repr(model.cells[a].value)
-    if sorted(model.cells) != sorted(set(full(k) for k in spec['cells'])):
+    if sorted(model.cells) != cells_before:
         return False, 'set of cells unchanged', sorted(model.cells)
     if sorted(model.defined_names) != sorted(spec['names']):
         return False, 'defined names unchanged', sorted(model.defined_names)
